@@ -5,7 +5,7 @@
   seeded.py verify [<id>]                 confirm in a scratch copy: compiles, 239 unit tests pass, demo fails with / passes without
   seeded.py run [<id>] [--props C01,..]   apply to a scratch copy and run the checks; record which properties report a violation
 """
-import json, os, shutil, subprocess, sys, tempfile, glob
+import re, json, os, shutil, subprocess, sys, tempfile, glob
 from concurrent.futures import ThreadPoolExecutor
 
 HERE = os.path.dirname(os.path.dirname(os.path.abspath(__file__)))
@@ -36,6 +36,32 @@ def cargo(tmp, *args):
     return r.returncode, r.stdout + r.stderr
 
 
+def needs_from_notes(path):
+    """the paragraph of the sub-agent's notes that says what the change needs in order to manifest"""
+    if not os.path.exists(path):
+        return ""
+    lines = open(path).read().splitlines()
+    out, on = [], False
+    for ln in lines:
+        if re.match(r"\s*(what is needed|needed to manifest|what it needs|trigger)", ln, re.I):
+            on = True
+        elif on and re.match(r"\s*(commands|why|change|verified|demo|files?)\b", ln, re.I):
+            break
+        if on:
+            out.append(ln.strip())
+    return " ".join(out)
+
+
+def fill_needs():
+    for mp in sorted(glob.glob(os.path.join(SEEDED, "*", "meta.json"))):
+        m = json.load(open(mp))
+        if not m.get("needs_to_manifest"):
+            m["needs_to_manifest"] = needs_from_notes(os.path.join(os.path.dirname(mp), "notes.txt"))
+            json.dump(m, open(mp, "w"), indent=1)
+        if not m["needs_to_manifest"]:
+            print("no needs_to_manifest for", m["id"])
+
+
 def ingest(src, prop):
     n = 0
     for d in sorted(glob.glob(os.path.join(src, "seed*.diff"))):
@@ -49,7 +75,7 @@ def ingest(src, prop):
             if os.path.exists(p):
                 shutil.copy(p, os.path.join(dst, name))
         meta = {"id": sid, "property": prop, "source": "independent sub-agent given only the text of %s and a scratch worktree" % prop,
-                "needs_to_manifest": "", "verified": None, "caught_by": None}
+                "needs_to_manifest": needs_from_notes(os.path.join(dst, "notes.txt")), "verified": None, "caught_by": None}
         mp = os.path.join(dst, "meta.json")
         if not os.path.exists(mp):
             json.dump(meta, open(mp, "w"), indent=1)
@@ -126,6 +152,9 @@ def main():
     cmd = sys.argv[1]
     if cmd == "ingest":
         ingest(sys.argv[2], sys.argv[3])
+        return
+    if cmd == "needs":
+        fill_needs()
         return
     ids = sorted(os.listdir(SEEDED)) if os.path.isdir(SEEDED) else []
     ids = [i for i in ids if os.path.isdir(os.path.join(SEEDED, i))]
